@@ -763,6 +763,39 @@ func ruleErrorProvenance(c *core.Ctx) {
 			if f != nil && okCallee(f.Origin()) {
 				return true, "from " + f.Name()
 			}
+			if f == nil && depth < 3 {
+				// a closure of the function: judged by what it returns
+				if id, ok := ast.Unparen(ce.Fun).(*ast.Ident); ok {
+					var lit *ast.FuncLit
+					ast.Inspect(body, func(m ast.Node) bool {
+						if as, ok := m.(*ast.AssignStmt); ok && len(as.Lhs) == 1 && len(as.Rhs) == 1 && identObj(info, as.Lhs[0]) == identObj(info, id) {
+							if fl, ok := as.Rhs[0].(*ast.FuncLit); ok {
+								lit = fl
+							}
+						}
+						return true
+					})
+					if lit != nil {
+						allOk, why := true, "every error the closure returns is accepted"
+						n := 0
+						ast.Inspect(lit.Body, func(m ast.Node) bool {
+							if inner, ok := m.(*ast.FuncLit); ok && inner != lit {
+								return false
+							}
+							if ret, ok := m.(*ast.ReturnStmt); ok && len(ret.Results) > 0 {
+								n++
+								if ok2, w := classify(lit.Body, ret.Results[len(ret.Results)-1], okCallee, okLit, depth+1); !ok2 {
+									allOk, why = false, w
+								}
+							}
+							return true
+						})
+						if n > 0 {
+							return allOk, why
+						}
+					}
+				}
+			}
 			return false, "error produced by " + orDyn(core.FullName(f), ce)
 		}
 		if id, ok := e.(*ast.Ident); ok && depth < 3 {
